@@ -4,16 +4,33 @@ pub use methods::dispatch as sort;
 
 #[dispatch]
 mod methods {
-    use crate::CelValue;
+    use crate::{CelError, CelResult, CelValue};
 
-    fn sort(mut this: Vec<CelValue>) -> Vec<CelValue> {
+    fn sort(mut this: Vec<CelValue>) -> CelResult<Vec<CelValue>> {
+        // sort_by needs a total order (it may panic otherwise): every element must
+        // be comparable with itself (no NaN) and with the first element
+        if let Some(first) = this.first().cloned() {
+            for value in this.iter() {
+                let with_first = value.clone().ord(first.clone());
+                let with_self = value.clone().ord(value.clone());
+                match (with_first, with_self) {
+                    (Ok(Some(_)), Ok(Some(_))) => {}
+                    _ => {
+                        return Err(CelError::value(
+                            "sort() requires mutually comparable elements",
+                        ))
+                    }
+                }
+            }
+        }
+
         this.sort_by(|a, b| {
             a.clone()
                 .ord(b.clone())
                 .unwrap_or(Some(std::cmp::Ordering::Less))
                 .unwrap_or(std::cmp::Ordering::Less)
         });
-        this
+        Ok(this)
     }
 
     mod internal {}
